@@ -1,13 +1,14 @@
 CONSTANTS
-  OptPoolSel = "six"
-  OptArgSel = "three"
+  OptPoolSel = "alias"
+  OptArgSel = "two"
   MaxLen = 2
   Steps = 1
-  ClassSel = "three"
+  ClassSel = "alias"
   FirstSel = "four"
   CollectMode = "bound"
 INIT Init
 NEXT Next
+INVARIANT HandlersPreserved
 INVARIANT Explained
 INVARIANT ShippedUsageFine
 INVARIANT Emit
